@@ -32,7 +32,9 @@ Proved (exact arithmetic):
   `(H/2, W/2)` (`corrMap_eq_gcorr`), so the above composes **end to end**: `flat_disk_exact` — for every map size and
   parity, every symmetric disk shape and every symmetric sign-matched template, the evaluation kernels applied to the
   model's correlation map return integer centre `q` and refined position exactly `q` (non-vacuity: a concrete 7×7
-  instance is checked by `decide`).
+  instance is checked by `decide`), and through both composed pipelines: `fastPeak_flat_disk_exact` (crop-based: centre and
+  refined position are exactly `start − c + w`) and `fullPeak_flat_disk_exact` (full-frame: exactly `q` for every start
+  position whose window lies in the frame and contains `q` 2 px inside).
 
 **Not proved**: the same for the *antialiased* disks and masks the library renders (edge pixels with fractional weights
 on both sides — there the uniqueness of the maximum is decided by the oracle only), the 0.01 px float bound and the
@@ -541,6 +543,145 @@ theorem fastPeak_symmetric_exact (L : ℚ → ℚ) (mask frame : ℤ → ℤ →
   simp only []
   rw [h1, h2, h3, h4]
   refine ⟨by ring, by ring, by push_cast; ring, by push_cast; ring⟩
+
+/-- **`flat_disk_exact` through the composed crop-based pipeline** (`process_frame_fast` for one peak): if the
+log-scaled crop of the window around `start` is a flat disk at window position `w` (≥ 2 px inside the window) and the
+template is symmetric and sign-matched, the reported centre and the refined position are exactly `start − c + w`, the
+disk's frame position — for every crop size, start position and such template -/
+theorem fastPeak_flat_disk_exact (L : ℚ → ℚ) (mask frame : ℤ → ℤ → ℚ) (fy fx : ℤ) (c : ℕ) (hc : 0 < c)
+    (start : ℤ × ℤ) (S : Finset (ZMod (2 * c) × ZMod (2 * c))) (A B : ℚ) (hA : 0 < A) (wy wx : ℤ)
+    (hwy : 2 ≤ wy ∧ wy + 2 < 2 * c) (hwx : 2 ≤ wx ∧ wx + 2 < 2 * c)
+    (hS : ∀ u, u ∈ S ↔ -u ∈ S)
+    (hmsym : ∀ u, torus (2 * c) (2 * c) mask (tcentre (2 * c) (2 * c) + u) = torus (2 * c) (2 * c) mask (tcentre (2 * c) (2 * c) - u))
+    (hin : ∀ u ∈ S, 0 < torus (2 * c) (2 * c) mask (tcentre (2 * c) (2 * c) + u))
+    (hout : ∀ u, u ∉ S → torus (2 * c) (2 * c) mask (tcentre (2 * c) (2 * c) + u) ≤ 0)
+    (hshape : ∀ d : ZMod (2 * c) × ZMod (2 * c), d ≠ 0 → ∃ u ∈ S, d - u ∉ S)
+    (hdata : torus (2 * c) (2 * c)
+        (logCrop L (fun y x => cropPixel frame fy fx c start.1 start.2 y x) ((2 * c : ℕ) : ℤ) ((2 * c : ℕ) : ℤ))
+      = flatDisk ((wy : ZMod (2 * c)), (wx : ZMod (2 * c))) S A B) :
+    let e := fastPeak L mask frame fy fx c start
+    e.cy = start.1 - c + wy ∧ e.cx = start.2 - c + wx ∧
+      e.ry = ((start.1 - c + wy : ℤ) : ℚ) ∧ e.rx = ((start.2 - c + wx : ℤ) : ℚ) := by
+  intro e
+  have : NeZero (2 * c) := ⟨by omega⟩
+  have hcast : (2 * (c : ℤ)) = ((2 * c : ℕ) : ℤ) := by push_cast; ring
+  have he : e = reanchor (evaluate (corrMap "fft.ifftshift" mask
+      (logCrop L (fun y x => cropPixel frame fy fx c start.1 start.2 y x) ((2 * c : ℕ) : ℤ) ((2 * c : ℕ) : ℤ))
+      ((2 * c : ℕ) : ℤ) ((2 * c : ℕ) : ℤ)) ((2 * c : ℕ) : ℤ) ((2 * c : ℕ) : ℤ)) start.1 start.2 c := by
+    show reanchor (evaluate (fastCorr L mask frame fy fx c start) (2 * (c : ℤ)) (2 * (c : ℤ))) start.1 start.2 c = _
+    unfold fastCorr Gen.fast_corr_shift
+    rw [hcast]
+  obtain ⟨h1, h2, h3, h4⟩ := flat_disk_exact mask
+    (logCrop L (fun y x => cropPixel frame fy fx c start.1 start.2 y x) ((2 * c : ℕ) : ℤ) ((2 * c : ℕ) : ℤ))
+    (2 * c) (2 * c) S A B hA wy wx (by push_cast; omega) (by push_cast; omega) hS hmsym hin hout hshape hdata
+  rw [he]
+  unfold reanchor Gen.shift
+  simp only []
+  rw [h1, h2, h3, h4]
+  refine ⟨by ring, by ring, by push_cast; ring, by push_cast; ring⟩
+
+/-- the two facts about the map of a flat disk with a symmetric sign-matched template (the content of
+`flat_disk_exact`): a strict maximum at `q` over the whole `H × W` map, and point symmetry about `q` -/
+theorem flat_disk_map_facts (mask data : ℤ → ℤ → ℚ) (H W : ℕ) [NeZero H] [NeZero W]
+    (S : Finset (ZMod H × ZMod W)) (A B : ℚ) (hA : 0 < A) (qy qx : ℤ)
+    (hqy : 0 ≤ qy ∧ qy < H) (hqx : 0 ≤ qx ∧ qx < W)
+    (hS : ∀ u, u ∈ S ↔ -u ∈ S)
+    (hmsym : ∀ u, torus H W mask (tcentre H W + u) = torus H W mask (tcentre H W - u))
+    (hin : ∀ u ∈ S, 0 < torus H W mask (tcentre H W + u))
+    (hout : ∀ u, u ∉ S → torus H W mask (tcentre H W + u) ≤ 0)
+    (hshape : ∀ d : ZMod H × ZMod W, d ≠ 0 → ∃ u ∈ S, d - u ∉ S)
+    (hdata : torus H W data = flatDisk ((qy : ZMod H), (qx : ZMod W)) S A B) :
+    (∀ a b : ℤ, 0 ≤ a → a < H → 0 ≤ b → b < W → (a, b) ≠ (qy, qx) →
+        corrMap "fft.ifftshift" mask data H W a b < corrMap "fft.ifftshift" mask data H W qy qx) ∧
+    (∀ dy dx : ℤ, corrMap "fft.ifftshift" mask data H W (qy + dy) (qx + dx)
+        = corrMap "fft.ifftshift" mask data H W (qy - dy) (qx - dx)) := by
+  constructor
+  · intro a b ha0 ha1 hb0 hb1 hne
+    rw [corrMap_eq_gcorr, corrMap_eq_gcorr, hdata]
+    apply sign_matched_unique (tcentre H W) _ (torus H W mask) S A B hA hS hin hout hshape
+    intro h
+    apply hne
+    have h1 := cast_inj_range H a qy ⟨ha0, ha1⟩ hqy (congrArg Prod.fst h)
+    have h2 := cast_inj_range W b qx ⟨hb0, hb1⟩ hqx (congrArg Prod.snd h)
+    rw [h1, h2]
+  · intro dy dx
+    rw [corrMap_eq_gcorr, corrMap_eq_gcorr, hdata]
+    have e1 : ((((qy + dy : ℤ) : ZMod H)), (((qx + dx : ℤ) : ZMod W)))
+        = (((qy : ZMod H), (qx : ZMod W)) : ZMod H × ZMod W) + (((dy : ZMod H), (dx : ZMod W))) := by
+      ext <;> simp
+    have e2 : ((((qy - dy : ℤ) : ZMod H)), (((qx - dx : ℤ) : ZMod W)))
+        = (((qy : ZMod H), (qx : ZMod W)) : ZMod H × ZMod W) - (((dy : ZMod H), (dx : ZMod W))) := by
+      ext <;> simp
+    rw [e1, e2]
+    exact corr_symmetric (tcentre H W) _ (torus H W mask) _ hmsym (flatDisk_symmetric _ S A B hS) _
+
+/-- **`flat_disk_exact` through the composed full-frame pipeline** (`process_frame_full` for one peak): the log-scaled
+frame is a flat disk on pixel `q`, the frame-sized template is symmetric and sign-matched; for every start position whose
+window lies inside the frame and contains `q` at least 2 px from its border, centre and refined position are exactly `q` -/
+theorem fullPeak_flat_disk_exact (L : ℚ → ℚ) (mask frame : ℤ → ℤ → ℚ) (H W : ℕ) [NeZero H] [NeZero W] (c : ℕ) (hc : 0 < c)
+    (start : ℤ × ℤ) (S : Finset (ZMod H × ZMod W)) (A B : ℚ) (hA : 0 < A) (qy qx : ℤ)
+    (hwy : (c : ℤ) ≤ start.1 ∧ start.1 + c ≤ H) (hwx : (c : ℤ) ≤ start.2 ∧ start.2 + c ≤ W)
+    (hqy : 2 ≤ qy - (start.1 - c) ∧ qy - (start.1 - c) + 2 < 2 * c)
+    (hqx : 2 ≤ qx - (start.2 - c) ∧ qx - (start.2 - c) + 2 < 2 * c)
+    (hS : ∀ u, u ∈ S ↔ -u ∈ S)
+    (hmsym : ∀ u, torus H W mask (tcentre H W + u) = torus H W mask (tcentre H W - u))
+    (hin : ∀ u ∈ S, 0 < torus H W mask (tcentre H W + u))
+    (hout : ∀ u, u ∉ S → torus H W mask (tcentre H W + u) ≤ 0)
+    (hshape : ∀ d : ZMod H × ZMod W, d ≠ 0 → ∃ u ∈ S, d - u ∉ S)
+    (hdata : torus H W (logFrame L frame H W) = flatDisk ((qy : ZMod H), (qx : ZMod W)) S A B) :
+    let e := fullPeak L mask frame H W c start
+    e.cy = qy ∧ e.cx = qx ∧ e.ry = (qy : ℚ) ∧ e.rx = (qx : ℚ) := by
+  intro e
+  obtain ⟨hstrict, hsym⟩ := flat_disk_map_facts mask (logFrame L frame H W) H W S A B hA qy qx
+    ⟨by omega, by omega⟩ ⟨by omega, by omega⟩ hS hmsym hin hout hshape hdata
+  set corr := corrMap "fft.ifftshift" mask (logFrame L frame H W) H W with hcorr
+  have hfull : fullCorr L mask frame H W = corr := by unfold fullCorr Gen.full_corr_shift; rfl
+  set oy := start.1 - c with hoy
+  set ox := start.2 - c with hox
+  have hcast : (2 * (c : ℤ)) = ((2 * c : ℕ) : ℤ) := by push_cast; ring
+  have hpos : 0 < 2 * c := by omega
+  -- inside the frame the window of the crop is the map itself
+  have hag : AgreeOn (fun y x => cropPixel (fullCorr L mask frame H W) H W c start.1 start.2 y x)
+      (fun y x => corr (oy + y) (ox + x)) ((2 * c : ℕ) : ℤ) ((2 * c : ℕ) : ℤ) := by
+    intro y x hy0 hy1 hx0 hx1
+    show cropPixel (fullCorr L mask frame H W) H W c start.1 start.2 y x = corr (oy + y) (ox + x)
+    rw [C13.cropPixel_eq_window, hfull]
+    unfold window
+    rw [if_pos (by push_cast at hy1 hx1; omega)]
+  have he : e = reanchor (evaluate (fun y x => corr (oy + y) (ox + x)) ((2 * c : ℕ) : ℤ) ((2 * c : ℕ) : ℤ)) start.1 start.2 c := by
+    show reanchor (evaluate (fun y x => cropPixel (fullCorr L mask frame H W) H W c start.1 start.2 y x)
+      (2 * (c : ℤ)) (2 * (c : ℤ))) start.1 start.2 c = _
+    rw [hcast, evaluate_congr _ _ (2 * c) (2 * c) hpos hpos hag]
+  obtain ⟨h1, h2, h3, h4⟩ := evaluate_strictmax_exact (fun y x => corr (oy + y) (ox + x)) (2 * c) (2 * c) hpos hpos
+    (qy - oy) (qx - ox) (by push_cast; omega) (by push_cast; omega)
+    (by
+      intro a b ha0 ha1 hb0 hb1 hne
+      have e1 : oy + (qy - oy) = qy := by ring
+      have e2 : ox + (qx - ox) = qx := by ring
+      show corr (oy + a) (ox + b) < corr (oy + (qy - oy)) (ox + (qx - ox))
+      rw [e1, e2]
+      apply hstrict (oy + a) (ox + b) (by omega) (by push_cast at ha1; omega) (by omega) (by push_cast at hb1; omega)
+      intro h
+      apply hne
+      have h1 : oy + a = qy := congrArg Prod.fst h
+      have h2 : ox + b = qx := congrArg Prod.snd h
+      have ha : a = qy - oy := by omega
+      have hb : b = qx - ox := by omega
+      rw [ha, hb])
+    (by
+      intro dy dx _ _ _ _
+      show corr (oy + (qy - oy + dy)) (ox + (qx - ox + dx)) = corr (oy + (qy - oy - dy)) (ox + (qx - ox - dx))
+      have e1 : oy + (qy - oy + dy) = qy + dy := by ring
+      have e2 : ox + (qx - ox + dx) = qx + dx := by ring
+      have e3 : oy + (qy - oy - dy) = qy - dy := by ring
+      have e4 : ox + (qx - ox - dx) = qx - dx := by ring
+      rw [e1, e2, e3, e4]
+      exact hsym dy dx)
+  rw [he]
+  unfold reanchor Gen.shift
+  simp only []
+  rw [h1, h2, h3, h4]
+  refine ⟨by omega, by omega, by rw [hoy]; push_cast; ring, by rw [hox]; push_cast; ring⟩
 
 /-- the upsampling step uses the correlation-map centre `ceil(n/2)`, which is exactly the offset
 that undoes the `ifftshift` for even *and odd* sizes: map index `j` ↔ signed shift `j − ceil(n/2)` -/
